@@ -217,30 +217,58 @@ func bitsW(t types.Type) int {
 	return w
 }
 
-// wellFormed returns the type invariant of a value of type t (is_valid).
-func (e *Enc) wellFormed(v *smt.Term, t types.Type, alloc *smt.Term) *smt.Term {
+// objTag is the ghost type tag of the object holding values of type t.
+func (e *Enc) objTag(t types.Type) *smt.Term {
+	b, _ := arrayBase(t)
+	return e.typeID(b)
+}
+
+func (e *Enc) objTypeHeap(st *State) *smt.Term {
+	return e.heap(st, "ghost:objtype", smt.Array(smt.BV(64), smt.BV(64)))
+}
+
+func (e *Enc) tagObj(st *State, obj *smt.Term, t types.Type) {
+	h := e.objTypeHeap(st)
+	e.setHeap(st, "ghost:objtype", e.C.Store(h, obj, e.objTag(t)))
+}
+
+// typedPtr: p is a non-nil, allocated pointer to an object of type t.
+func (e *Enc) typedObj(st *State, obj *smt.Term, t types.Type) *smt.Term {
 	c := e.C
+	return c.And(c.Ne(obj, e.bv64(0)), c.Cmp("bvule", obj, st.Alloc), c.Eq(c.Select(e.objTypeHeap(st), obj), e.objTag(t)))
+}
+
+// wellFormed returns the type invariant of a value of type t (is_valid).
+func (e *Enc) wellFormed(v *smt.Term, t types.Type, st *State) *smt.Term {
+	c := e.C
+	alloc := st.Alloc
 	switch u := t.Underlying().(type) {
 	case *types.Pointer:
-		_ = u
-		return c.And(c.Cmp("bvule", e.ptrObj(v), alloc),
-			c.Implies(c.Eq(e.ptrObj(v), e.bv64(0)), c.Eq(e.ptrIdx(v), e.bv64(0))),
+		obj := e.ptrObj(v)
+		isnil := c.Eq(obj, e.bv64(0))
+		tagged := c.True()
+		if !isOpaqueStructT(u.Elem()) {
+			if _, isIface := u.Elem().Underlying().(*types.Interface); !isIface {
+				tagged = c.Eq(c.Select(e.objTypeHeap(st), obj), e.objTag(u.Elem()))
+			}
+		}
+		return c.And(c.Cmp("bvule", obj, alloc),
+			c.Implies(isnil, c.Eq(e.ptrIdx(v), e.bv64(0))),
+			c.Implies(c.Not(isnil), tagged),
 			c.Cmp("bvult", e.ptrIdx(v), e.bv64(1<<62)))
 	case *types.Slice:
 		lim := e.bv64(1 << 62)
+		obj := e.slObj(v)
+		isnil := c.Eq(obj, e.bv64(0))
 		return c.And(c.Cmp("bvule", e.slLen(v), e.slCap(v)), c.Cmp("bvult", e.slCap(v), lim), c.Cmp("bvult", e.slOff(v), lim),
-			c.Cmp("bvule", e.slObj(v), alloc),
-			c.Implies(c.Eq(e.slObj(v), e.bv64(0)), c.Eq(e.slCap(v), e.bv64(0))))
+			c.Cmp("bvule", obj, alloc),
+			c.Implies(isnil, c.Eq(e.slCap(v), e.bv64(0))),
+			c.Implies(c.Not(isnil), c.Eq(c.Select(e.objTypeHeap(st), obj), e.objTag(u.Elem()))))
 	case *types.Map:
-		return c.Cmp("bvule", v, alloc)
+		return c.And(c.Cmp("bvule", v, alloc), c.Implies(c.Ne(v, e.bv64(0)), c.Eq(c.Select(e.objTypeHeap(st), v), e.typeID(t.Underlying()))))
 	case *types.Interface:
-		// payload pointer allocated
 		pay := c.Extract(127, 0, v)
 		return c.Implies(c.Eq(c.Extract(191, 128, v), e.bv64(0)), c.Eq(pay, e.nilPtr()))
-	case *types.Basic:
-		if isSigned(t) && false {
-			return c.True()
-		}
 	}
 	return c.True()
 }
@@ -399,6 +427,7 @@ func (e *Enc) allocObj(st *State, t types.Type) *smt.Term {
 	c := e.C
 	obj := c.BVOp("bvadd", st.Alloc, e.bv64(1))
 	st.Alloc = obj
+	e.tagObj(st, obj, t)
 	for hn, hs := range e.heapsOfType(t) {
 		h := e.heap(st, hn, hs)
 		elem := hs.Elem.Elem
